@@ -11,7 +11,7 @@ from sa.pm import FuncInfo, call_name, norm, self_attr, walk_local_ordered
 from sa.report import Ob, rule
 
 from .c02 import depth_guard, region
-from .common import local_defs, attr_stores, ob, receiver_classes
+from .common import local_defs, attr_stores, ob, receiver_classes, structurally_non_none
 
 LISTENER = 'zeroconf._listener.AsyncListener'
 PROTOCOL_METHODS = ('datagram_received', 'error_received', 'connection_made', 'connection_lost')
@@ -616,6 +616,34 @@ def memory(ctx: Any) -> List[Ob]:
 
 
 RULES.append(memory)
+
+
+@rule('C15.OPTIONAL', 'N', expect_min=1)
+def optional(ctx: Any) -> List[Ob]:
+    """No attribute or item is taken from a value that may be None anywhere on the datagram-driven path: for every
+    `x.attr` / `x[k]` in the functions reachable from the event-loop entry points, the type the oracle computes for `x`
+    at that point (after flow narrowing) does not include None.  A helper that returns Optional (an address that does not
+    parse, a cache miss) dereferenced without a test is an AttributeError / TypeError into the event loop."""
+    R = 'C15.OPTIONAL'
+    roots = entry_points(ctx)
+    scope = ctx.cg.closure(roots)
+    obs: List[Ob] = []
+    n = 0
+    for f in sorted(scope, key=lambda x: x.full):
+        for x in walk_local_ordered(f.node):
+            if (isinstance(x, ast.Attribute) or (isinstance(x, ast.Subscript))) and isinstance(x.ctx, ast.Load):
+                n += 1
+                td = ctx.ty.type_of(f.module.name, x.value)
+                if td and td[0] == 'union' and any(m and m[0] == 'none' for m in td[1]) and not structurally_non_none(f, x, x.value):
+                    obs.append(ob(R, f, x, 'the value dereferenced here cannot be None', False, f'`{norm(x.value)[:50]}` has type Optional at this point (no None test dominates the access)'))
+    ctx.counters['dereferences_examined'] = n
+    obs.append(ob(R, ('src/zeroconf', '<datagram path>'), f'{n} attribute / item accesses in {len(scope)} functions', 'none of them is applied to a possibly-None value (type oracle, flow-narrowed)', True))
+    if n < 500:
+        raise AnalysisError(f'only {n} dereferences examined on the datagram path (expected about 1000): the type oracle or the closure shrank')
+    return obs
+
+
+RULES.append(optional)
 
 
 @rule('C15.ASSEMBLED', 'N', expect_min=2)
